@@ -1137,14 +1137,16 @@ def _generated(model, extra):
     n = int(extra.get("n", 0))  # 0: every generated program (a few hundred per trait, 10-25 s)
     progs = sample(trait, n, int(extra.get("seed", 0)))
     problems, done, skipped = [], 0, 0
-    for prg, factsets in progs:
+    for entry in progs:
+        prg, factsets = entry[0], entry[1]
+        inputs = entry[2] if len(entry) > 2 else "auto"  # explicit input declaration (else auto-detected)
         try:
             src = [models(prg, f) for f in factsets]
         except RuntimeError:
             skipped += 1
             continue
         try:
-            new = optimise(prg, [] if trait == "none" else [trait], limit_s=30)
+            new = optimise(prg, [] if trait == "none" else [trait], inputs=inputs, limit_s=30)
         except Exception as e:  # pylint: disable=broad-except
             problems.append({"program": prg, "traits": [trait], "exception": repr(e)})
             if type(e).__name__ == "DidNotReturn":
@@ -1195,7 +1197,8 @@ def _generated_no_exception(model, extra):
     per = int(extra.get("n", 20)) if extra.get("tier") != "thorough" else 0
     n = 0
     for trait in GENERATORS:
-        for prg, _f in sample(trait, per, int(extra.get("seed", 0))):
+        for entry in sample(trait, per, int(extra.get("seed", 0))):
+            prg = entry[0]
             for traits in ([trait], [t for t in _T if t != "duplication"], list(_T)):
                 n += 1
                 try:
